@@ -103,6 +103,50 @@ def make_params(ex, ctx, st, c):
     return args
 
 
+def verify_lemma(reg, sources, key, c):
+    """A lemma over spec functions: for all arguments satisfying `requires`, every `claim_*` holds."""
+    rep = FunctionReport(key)
+    t0 = time.time()
+    ex = Exec(reg, sources)
+    ex.loop_ids, ex.loop_invs, ex.top_frame_index = {}, {}, -1
+    explorer = Explorer(max_paths=2000)
+    name = key.split(":", 1)[1]
+
+    def run(ctx):
+        st = State()
+        args = make_params(ex, ctx, st, c)
+        st.frames = [Frame({}, None, c.source_scope, name)]
+        if c.requires is not None:
+            ctx.assume(calls.eval_spec_bool(ex, ctx, st, (c.source_scope, c.requires), args,
+                                            arg_types=calls.contract_types(ex, c)), f"requires:{key}")
+        if not ctx.feasible(z3.BoolVal(True)):
+            raise CheckerError(f"precondition of {key} is unsatisfiable (vacuous lemma)")
+        for cname, fdef in c.ensures_clauses:
+            g = calls.eval_spec_bool(ex, ctx, st, (c.source_scope, fdef), args, arg_types=calls.contract_types(ex, c),
+                                     as_goal=True)
+            ctx.oblige(f"{name}#{cname}", g, {"kind": "lemma"})
+        return st, "return", NONE
+
+    try:
+        results = explorer.explore(run)
+    except Unsupported as u:
+        rep.status, rep.reason = "out_of_reach", str(u)
+        return rep
+    except CheckerError as e:
+        rep.status, rep.reason = "checker_error", str(e)
+        return rep
+    rep.paths = len(results)
+    obls = []
+    for r in results:
+        rep.assumptions.update(a for a in r.assumptions if a)
+        obls.extend(r.obligations)
+    rep._obls = obls
+    rep._results = results
+    rep.stats = dict(explorer.stats)
+    rep.time = time.time() - t0
+    return rep
+
+
 def verify_function(reg, sources, key, canary=True):
     """Symbolically execute the real function `key` against its contract. Returns FunctionReport with
     undischarged obligations attached as z3 objects in `rep._obls` (discharged by discharge())."""
@@ -111,6 +155,8 @@ def verify_function(reg, sources, key, canary=True):
     if "#" in key:
         key, case = key.split("#", 1)
     c = reg.contracts[key]
+    if key.startswith("lemma:"):
+        return verify_lemma(reg, sources, key, c)
     module, qual = key.split(":")
     rep = FunctionReport(full_key)
     t0 = time.time()
@@ -137,6 +183,7 @@ def verify_function(reg, sources, key, canary=True):
     def run(ctx):
         st = State()
         args = make_params(ex, ctx, st, c)
+        ex.entry_args = dict(zip(c.params, args))  # loop invariants may name `<param>_entry`
         if c.kind in ("method", "property"):
             st.tracked = [args[0].t]
         fr0 = Frame({}, None, scope, qual)
@@ -203,6 +250,17 @@ def verify_function(reg, sources, key, canary=True):
                     if cur.eq(was):
                         continue
                     ctx.oblige(f"{qual}#frame:{a_}", cur == was, {"kind": "frame"})
+        if outcome in ("return", "raise") and "$fs" not in {m.partition("@")[0] for m in c.modifies}:
+            # a function that performs file-system write effects must say so (`$fs` in modifies): callers of a
+            # contract without it rely on the effect trace being unchanged
+            from . import effects as _fx
+            from .exec import heap_lookup as _hl
+            cur_len = st.heap.get("$len")
+            if cur_len is not None:
+                was_len = _hl(old_heap, "$len")
+                g = simp(z3.Select(cur_len, _fx.FS_TRACE) == z3.Select(was_len, _fx.FS_TRACE))
+                if not z3.is_true(g):
+                    ctx.oblige(f"{qual}#frame:fs-trace", g, {"kind": "frame"})
         if outcome == "return":
             for name, post in eval_ensures_all(ex, ctx, st, c, args, value, old_heap):
                 ctx.oblige(f"{qual}#{name}", post, {"kind": "postcondition"})
@@ -361,26 +419,88 @@ def model_summary(m, limit=60):
     return out
 
 
-def discharge(rep):
-    """Discharge all obligations of a FunctionReport (in-process). Fills rep.obligations (plain dicts)."""
-    out = []
-    for ob in getattr(rep, "_obls", []):
-        if ob.meta.get("trivial"):
-            out.append({"name": ob.name, "status": "discharged", "time": 0.0, "backend": "simplifier",
-                        "kind": ob.meta.get("kind")})
-            continue
-        status, dt, model, backend = solve(ob.pc, ob.goal)
-        d = {"name": ob.name, "status": status, "time": round(dt, 4), "backend": backend,
-             "kind": ob.meta.get("kind"), "line": ob.meta.get("line")}
-        if ob.meta.get("kind") == "exception-freedom":
-            d["exception"] = ob.meta.get("exception")
-            d["where"] = ob.meta.get("where")
-        if status == "failed":
-            d["model"] = model_summary(model)
-            d["_model"] = model
-            d["_ob"] = ob
-        elif status == "undecided":
-            d["reason"] = str(model)[:500]
-        out.append(d)
-    rep.obligations = out
+def _discharge_one(ob):
+    if ob.meta.get("trivial"):
+        return {"name": ob.name, "status": "discharged", "time": 0.0, "backend": "simplifier",
+                "kind": ob.meta.get("kind")}
+    status, dt, model, backend = solve(ob.pc, ob.goal)
+    d = {"name": ob.name, "status": status, "time": round(dt, 4), "backend": backend,
+         "kind": ob.meta.get("kind"), "line": ob.meta.get("line")}
+    if ob.meta.get("kind") == "exception-freedom":
+        d["exception"] = ob.meta.get("exception")
+        d["where"] = ob.meta.get("where")
+    if status == "failed":
+        d["model"] = model_summary(model)
+        d["_model"] = model
+        d["_ob"] = ob
+    elif status == "undecided":
+        d["reason"] = str(model)[:500]
+    return d
+
+
+def _plain(d):
+    """obligation record without z3 objects (what a forked discharge worker can send back)"""
+    out = {k: v for k, v in d.items() if not k.startswith("_")}
+    if d.get("status") == "failed" and "_ob" in d:
+        try:
+            s = z3.Solver()
+            for c in d["_ob"].pc:
+                s.add(c)
+            s.add(z3.Not(d["_ob"].goal))
+            out["smt2"] = s.to_smt2()[:200000]
+            m = d.get("_model")
+            out["model_full"] = str(m)[:20000] if m is not None else None
+        except Exception:
+            pass
+    return out
+
+
+def discharge(rep, jobs=1):
+    """Discharge all obligations of a FunctionReport. Fills rep.obligations (plain dicts).  With jobs > 1 the
+    obligations are split over forked worker processes (the z3 terms live in the forked address space; results come
+    back as plain dicts through temporary files)."""
+    obls = list(getattr(rep, "_obls", []))
+    hard = [i for i, ob in enumerate(obls) if not ob.meta.get("trivial")]
+    if jobs <= 1 or len(hard) < 2 * jobs:
+        rep.obligations = [_discharge_one(ob) for ob in obls]
+        return rep
+    import pickle
+    chunks = [hard[k::jobs] for k in range(jobs)]
+    children = []
+    for ch in chunks:
+        fd, path = tempfile.mkstemp(suffix=".pkl")
+        os.close(fd)
+        pid = os.fork()
+        if pid == 0:
+            code = 0
+            try:
+                res = [(i, _plain(_discharge_one(obls[i]))) for i in ch]
+                with open(path, "wb") as f:
+                    pickle.dump(res, f)
+            except BaseException:
+                traceback.print_exc()
+                code = 1
+            finally:
+                os._exit(code)
+        children.append((pid, path, ch))
+    out = {}
+    failed_children = []
+    for pid, path, ch in children:
+        _, st = os.waitpid(pid, 0)
+        try:
+            if st == 0 and os.path.getsize(path) > 0:
+                with open(path, "rb") as f:
+                    for i, d in pickle.load(f):
+                        out[i] = d
+            else:
+                failed_children.append(ch)
+        finally:
+            try:
+                os.unlink(path)
+            except OSError:
+                pass
+    for ch in failed_children:  # a worker died: redo its share in-process
+        for i in ch:
+            out[i] = _discharge_one(obls[i])
+    rep.obligations = [out[i] if i in out else _discharge_one(ob) for i, ob in enumerate(obls)]
     return rep
